@@ -11,6 +11,7 @@ import os, sys, json, time, hashlib, traceback, collections, itertools, multipro
 
 VERIF = os.path.dirname(os.path.dirname(os.path.abspath(__file__)))
 REPO = os.environ.get('VERIF_REPO', '/repo')
+OUT = os.environ.get('VERIF_OUT', VERIF)   # evidence/ and replays/ go here (mutation runs redirect it)
 
 
 class HarnessError(Exception):
@@ -57,22 +58,21 @@ def case_hash(x):
     return hashlib.blake2b(json.dumps(x, sort_keys=True, default=str).encode(), digest_size=8).hexdigest()
 
 
+def _is_lib(fn):
+    return '/ansi_string/' in fn and not fn.startswith(VERIF + os.sep)
+
+
 def lib_frame(exc):
-    """Innermost traceback frame: ('lib'|'harness', 'file:line:func')."""
+    """Which side raised: walks the traceback from the innermost frame outwards; the first frame
+    that belongs to the library or to the harness decides (stdlib frames are skipped, so re.error
+    raised by re called from the library counts as 'lib').  Returns (kind, 'file:func')."""
     tb = traceback.extract_tb(exc.__traceback__)
-    if not tb:
-        return 'harness', '?'
-    fr = tb[-1]
-    where = '%s:%s' % (os.path.basename(fr.filename), fr.name)
-    kind = 'lib' if ('ansi_string' in fr.filename and '/verif/' not in fr.filename) else 'harness'
-    # an exception raised by the stdlib (re, str methods) called from the library counts as lib
-    if kind == 'harness':
-        for f in reversed(tb):
-            if 'ansi_string' in f.filename and '/verif/' not in f.filename:
-                return 'lib', '%s:%s' % (os.path.basename(f.filename), f.name)
-            if '/verif/' in f.filename:
-                return 'harness', '%s:%s:%s' % (os.path.basename(f.filename), f.lineno, f.name)
-    return kind, where
+    for f in reversed(tb):
+        if _is_lib(f.filename):
+            return 'lib', '%s:%s' % (os.path.basename(f.filename), f.name)
+        if f.filename.startswith(VERIF + os.sep):
+            return 'harness', '%s:%s:%s' % (os.path.basename(f.filename), f.lineno, f.name)
+    return 'harness', '?'
 
 
 def safe_eval(sub, case):
@@ -381,7 +381,7 @@ def run_property(pid, tier, seed, replay=None, only_sub=None, scale=1.0):
             violations.append((sname, b, f['case'], f['msg']))
 
     # shrink + write replays
-    rep_dir = os.path.join(VERIF, 'replays', pid)
+    rep_dir = os.path.join(OUT, 'replays', pid)
     vio_lines = []
     seen = set()
     budget = 8.0 if tier == 'quick' else 40.0
@@ -435,8 +435,8 @@ def run_property(pid, tier, seed, replay=None, only_sub=None, scale=1.0):
         wall_s=round(time.time() - t0, 2),
         violations=len(vio_lines),
     )
-    os.makedirs(os.path.join(VERIF, 'evidence'), exist_ok=True)
-    json.dump(ev, open(os.path.join(VERIF, 'evidence', pid + '.json'), 'w'), indent=1, default=str)
+    os.makedirs(os.path.join(OUT, 'evidence'), exist_ok=True)
+    json.dump(ev, open(os.path.join(OUT, 'evidence', pid + '.json'), 'w'), indent=1, default=str)
 
     for l in known_lines:
         print(l)
